@@ -311,6 +311,8 @@ def replay_case(case, sv, wit):
         form = E(S("setv"), S("hv_x"), form)
     elif wit.get("wrap") == "setx":
         form = E(S("setx"), S("hv_x"), form)
+    elif wit.get("wrap") == "setv of a let-bound variable":
+        form = E(S("let"), List([S("hv_x"), Tok("hv_init", "E", line=1)]), E(S("setv"), S("hv_x"), form), S("hv_x"))
     from hv.rules import let_wrap
     form = let_wrap(form, toks, sv)
     ctxkw = dict(case.ctxkw)
